@@ -155,7 +155,8 @@ fn world(case: &Case, root: &Path) -> Snapshot {
     s.insert("outside/dir555/sub/deep", Node::File { mode: 0o444, data: b"deep".to_vec() });
     s.insert("layers/store.toml", Node::file(b"[metadata]\nk = 1\n"));
     // siblings: unrelated, sharing a prefix, and "<name>.<more>" (whose toml/SBOM names start with "a.")
-    for sib in ["b", "ab", "a.x"] {
+    // ... and names an implementation might use for its own temporaries next to layer `a`
+    for sib in ["b", "ab", "a.x", "a.deleting", "a.tmp", "a.bak", "a.old", "a~", ".a", ".a.tmp"] {
         s.insert(&format!("layers/{sib}"), Node::Dir { mode: 0o555 });
         s.insert(&format!("layers/{sib}/keep"), Node::File { mode: 0o444, data: b"keep".to_vec() });
         s.insert(&format!("layers/{sib}.toml"), Node::file(b"[types]\ncache = true\n"));
